@@ -42,6 +42,10 @@ CHECKS = {
    text="DecisionTable.tla defines rule matching (every input entry satisfied, allowed input values) and the result per hit policy (U, A, F, P, R, O, C, C+, C<, C>, C#, default output, multi-output contexts, priority by output values) on top of FeelEval. TLC enumerates tables exhaustively over small scopes (every input-entry form x input value; one input over {1,2,3} with entries {-, 1, >=2}, outputs {10,20,30}, every rule list up to 2 (quick) / 3 (thorough) rules, every policy, with and without output values and default; two output components; two inputs); the harness writes each table as DMN XML, loads it through the model parser and evaluator, and TLC compares the decision's value with Result for every input tuple.",
    note="Null input values and aggregators over zero hits are Unspec. Trusts TLC, the spec's reading of DMN 8.2, the harness XML writer.",
    technique="TLA+ specification of hit policies as oracle; tables enumerated by TLC, evaluated by the real model evaluator through DMN XML"),
+ "C04": dict(cat="exploration", design="DESIGN.md §5 C04",
+   text="Drg.tla gives every boxed expression its meaning by translation to FEEL trees (context with/without result entry, invocation with named bindings evaluated in the invoking scope, relation, function definition, decision table) and defines the value of decisions, knowledge models (as function values whose environment holds the models they require) and decision services over the requirement graph. TLC enumerates every combination of boxed forms for two knowledge models (whose parameters are deliberately named like the input data, so a value tells which binding was used) and the decisions of a diamond-shaped graph; the harness writes each model as DMN XML, evaluates every invocable on every input context - and again with input entries outside the requirement closure - and TLC compares with ValueOf.",
+   note="A fixed graph shape with varied logic forms (72 models), not all graphs. Boxed lists and decision-level function definitions are not accepted by this implementation and not generated; decision services used as knowledge and input decisions are Unspec. Trusts TLC, Drg.tla, the XML writer.",
+   technique="TLA+ specification of requirement-graph evaluation as oracle; models enumerated by TLC and evaluated by the real model evaluator through DMN XML"),
 }
 NOT_YET = {}
 props = [json.loads(l) for l in open('/verif/properties.jsonl')]
